@@ -130,6 +130,10 @@ func (x *Exec) assert(st *State, kind, label string, goal Term, tags []string, p
 	if goal.T.K != SBool {
 		panic("assert non-bool goal " + goal.S)
 	}
+	if len(tags) == 0 && kind != "vacuity" {
+		// a clause without its own tags supports everything the function serves
+		tags = x.safetyTags
+	}
 	name := x.top.Key + "/" + kind
 	if strings.HasPrefix(kind, "safety/") {
 		x.ord[kind]++
@@ -762,6 +766,7 @@ func (x *Exec) forStmt(s *ast.ForStmt, st *State, label string) {
 	}
 	spec := x.loopSpec(s)
 	env := x.loopEnv(st)
+	env.loopVar = x.findLoopVar(s)
 	if spec != nil {
 		for _, gs := range spec.Inits {
 			v := x.specValue(gs.Expr, env.at(st))
@@ -1025,6 +1030,7 @@ type loopEnvT struct {
 	base       *SpecEnv
 	loopIdxKey string
 	visitedKey string
+	loopVar    types.Object
 }
 
 func (le *loopEnvT) at(st *State) *SpecEnv {
@@ -1032,11 +1038,58 @@ func (le *loopEnvT) at(st *State) *SpecEnv {
 	e.st = st
 	e.loopIdxKey = le.loopIdxKey
 	e.visitedKey = le.visitedKey
+	e.loopVar = le.loopVar
 	return &e
 }
 
 func (x *Exec) loopEnv(st *State) *loopEnvT {
 	return &loopEnvT{base: x.frameEnv(st)}
+}
+
+// findLoopVar: the unique local mentioned in the loop condition and assigned in the loop.
+func (x *Exec) findLoopVar(s *ast.ForStmt) types.Object {
+	if s.Cond == nil {
+		return nil
+	}
+	inCond := map[types.Object]bool{}
+	ast.Inspect(s.Cond, func(n ast.Node) bool {
+		if id, ok := n.(*ast.Ident); ok {
+			if v, ok := x.info.Uses[id].(*types.Var); ok && v.Parent() != v.Pkg().Scope() && !v.IsField() {
+				inCond[v] = true
+			}
+		}
+		return true
+	})
+	assigned := map[types.Object]bool{}
+	mark := func(e ast.Expr) {
+		if id, ok := unparen(e).(*ast.Ident); ok {
+			if o := x.info.ObjectOf(id); o != nil && inCond[o] {
+				assigned[o] = true
+			}
+		}
+	}
+	visit := func(n ast.Node) bool {
+		switch st := n.(type) {
+		case *ast.AssignStmt:
+			for _, l := range st.Lhs {
+				mark(l)
+			}
+		case *ast.IncDecStmt:
+			mark(st.X)
+		}
+		return true
+	}
+	ast.Inspect(s.Body, visit)
+	if s.Post != nil {
+		ast.Inspect(s.Post, visit)
+	}
+	if len(assigned) != 1 {
+		return nil
+	}
+	for o := range assigned {
+		return o
+	}
+	return nil
 }
 
 func (x *Exec) loopInvs(spec *LoopSpec, st *State, env *loopEnvT, kind string, pos token.Pos) {
